@@ -261,7 +261,7 @@ def run(tier, seed):
             raise core.MachineryError("non-vacuity self-test failed: variant %s (no defensive copy) was accepted" % v)
         rej += 1
     res.notes["variants_without_defensive_copy_rejected"] = rej
-    r = tlc.run("MC_C13", "c13.cases." + tier, constants=dict(Tier=tier, Seed=seed), properties=["Frame"], workers=16, timeout=1800, heap="8g")
+    r = tlc.run("MC_C13", "c13.cases." + tier, constants=dict(Tier=tier, Seed=seed, ValSeed=seed), properties=["Frame"], workers=16, timeout=1800, heap="8g")
     res.add_tlc("MC_C13", r)
     cases = sorted(r["out"], key=lambda c: (c["kind"], c["op"], c["cls"], str(c["b"]), str(c["layouts"]), c["cg"]))
     # canary: an operation that does write must be reported
